@@ -7,7 +7,8 @@ anchor) when an anchor is not found -- a missing anchor is reported by ./check a
 never silently skipped.  Only constants, name tables and inventories are read here; everything
 behavioural goes through the correspondence harness (tie B) -- with one exception: gen_exit_paths()
 reads the ORDER OF STATEMENTS of the per-flow functions (exit paths, C15) and refuses every statement
-it does not recognise.  VERIF_REPO=<dir> reads another source tree than /repo.
+it does not recognise, and gen_loop_shapes() reads the SHAPE of the long-lived service loops (which failure ends which
+loop, C08) with the same strictness.  VERIF_REPO=<dir> reads another source tree than /repo.
 """
 import os, re, sys, json
 
@@ -1063,6 +1064,518 @@ Inductive xstep :=
 """
 
 
+# ------------------------------------------------------------------------------------------
+# C08: loop shapes -- which failure ENDS which long-lived service loop.
+# The body of every service loop is cut into statements and walked structurally; every statement must be
+# recognised (tag [LoopShapes] otherwise).  A FALLIBLE POINT is an expression matched by one of the loop's point
+# recognisers; its DISPOSITION is read off the syntax around it:
+#     E?                                      Propagate ByQuestion        `while let Ok(..) = E {`   Propagate ByLoopCond
+#     match E { .. Err(e) => { ..; break } }  Propagate ByBreak           .. => { ..; return .. }    Propagate ByReturn
+#     match E { .. Err(e) => { ..; continue } } Handled SkipIteration     .. => log                  Handled FallThrough
+#     E.unwrap_or_else(|e| log)               Handled FallThrough         E.ok() / .is_ok() / .err() Handled Converted
+#     PAT = E  (refutable select! pattern)    Parked                      inside tokio::spawn(..)    InTask
+# As a safety net the number of `?` and of break / continue / return in the walked text must equal the number the
+# walker consumed: no recogniser with a wildcard can swallow an exit.
+_LS_VOCAB = """(* how a failure leaves the loop *)
+Inductive exit_kind := ByQuestion | ByReturn | ByBreak | ByLoopCond | ByPanic.
+(* how the loop's own task deals with it and goes on: `continue`, falls through after logging, turned into a value *)
+Inductive keep_kind := SkipIteration | FallThrough | Converted.
+Inductive disposition :=
+| Propagate (k : exit_kind)   (* the failure ends the loop: the service is gone *)
+| Handled (k : keep_kind)     (* dealt with on the loop's own task; the loop goes on *)
+| Parked                      (* refutable tokio::select! pattern: the branch is disabled until another branch completes *)
+| InTask.                     (* inside tokio::spawn: the failure can at most end the spawned task *)
+(* the fallible points, by role *)
+Inductive point :=
+| PTick
+| PAccept | PNewCodec | PTlsHandshake | PWsThenRelay | PRelay
+| PEndpointAccept | PQuicHandshake | PQuicAcceptBi | PQuicRelay
+| PRecvChannel | PEncodeReply | PSendReply | PRecvClient | PDecodeClient | PAssocSend | PAssocCreate | PAssocSendNew
+| PPeerRecv | PPacketIdNext | PReplyChannelSend | PClientChannelRecv | PResolve | PReplayCheck | PSendPeer
+| PLocalHandshake | PTryTransfer
+| PRecvReplyChannel | PSendLocalReply | PRecvLocal
+| PNewOutVacant | PNewBindingVacant | PNewOutRetry | PNewBindingRetry | PSendOutbound
+| PFirstSend | PServerRecv | PServerDecode | PLocalChannelSend.
+"""
+_LS_POINTS = set(re.findall(r"\bP([A-Z]\w+)", _LS_VOCAB.split("Inductive point :=")[1]))
+
+_LS_LOGX = r"(?:error|info|debug|warn|trace)!\(.*\)"
+_LS_PURE = [
+    _LS_LOGX + r"[;,]?",
+    r"(?:tokio::)?time::sleep\((?:std::time::)?Duration::from_millis\(\d+\)\)\.await;",
+    r"let (?:mut )?\w+ = \w+\.clone\(\);",
+    r"[a-z_]\w*,?",            # a binding as the value of an arm
+    r"\(\)[;,]?",
+    r"None,?", r"Some\(\w+\),?",
+]
+_LS_SUFFIXES = [
+    (r"\?", "Propagate ByQuestion"),
+    (r"\.unwrap\(\)|\.expect\(.*\)", "Propagate ByPanic"),
+    (r"\.unwrap_or_else\(\|\w+\| %s\)" % _LS_LOGX, "Handled FallThrough"),
+    (r"\.ok\(\)|\.is_ok\(\)|\.err\(\)(?:\.map\(.*\))?", "Handled Converted"),
+    (r"", "Handled Converted"),
+]
+_LS_TERMINALS = [(r"continue;?", "continue"), (r"break;?", "break"), (r"return\b.*", "return"), (r"bail!\(.*\);?", "return"),
+                 (r"(?:panic|unreachable|todo|unimplemented)!\(.*\);?", "panic")]
+_LS_FAIL_DISP = {None: "Handled FallThrough", "continue": "Handled SkipIteration", "break": "Propagate ByBreak",
+                 "return": "Propagate ByReturn", "panic": "Propagate ByPanic"}
+
+
+def _ls_norm(t):
+    """_norm, and a method chain broken over several lines is one chain"""
+    return re.sub(r" \.(?=[A-Za-z_])", ".", _norm(t))
+
+
+def _ls_no_literals(t):
+    out, i = [], 0
+    while i < len(t):
+        j = _skip_literal(t, i)
+        if j != i:
+            i = j
+            continue
+        out.append(t[i])
+        i += 1
+    return "".join(out)
+
+
+def _ls_single_loop(block, what):
+    """the one loop statement of a block: (header text, body text)"""
+    found = [st for st in _stmts(block, what) if re.match(r"(?:loop|while)\b", st)]
+    if len(found) != 1:
+        raise AnchorMissing("%s: expected exactly one `loop` / `while` statement, found %d" % (what, len(found)))
+    st = found[0]
+    k = _first_open(st, 0, "{", what)
+    e = _close_of(st, k, what)
+    if st[e + 1:].strip() not in ("", ",", ";"):
+        raise AnchorMissing("%s: text after the loop: %r" % (what, st[e + 1:][:60]))
+    return st[:k].strip(), st[k + 1:e].strip()
+
+
+def _ls_stmt_with(block, rx, what):
+    found = [st for st in _stmts(block, what) if re.match(rx, st)]
+    if len(found) != 1:
+        raise AnchorMissing("%s: expected exactly one statement starting with /%s/, found %d" % (what, rx, len(found)))
+    return found[0]
+
+
+def _ls_braced(st, start, what):
+    """(text before the first top-level `{` at/after start, inside of that block, text after it)"""
+    k = _first_open(st, start, "{", what)
+    e = _close_of(st, k, what)
+    return st[start:k].strip(), st[k + 1:e].strip(), st[e + 1:].strip()
+
+
+class _LoopWalk:
+    """rec = {points: [(expr regex, Name)], pure: [stmt regex], plain_match: [(scrutinee regex, [(pattern regex, suffix)])],
+              plain_if: [(cond regex, then suffix, else suffix)], check_if: [(cond regex, Name)], calls: [(call regex, Name)],
+              select: [(future regex, Name)], arm_suffix: {Name: suffix}, loops: bool, task: rec of spawned blocks}"""
+
+    def __init__(self, what, rec):
+        self.what, self.rec = what, rec
+        self.points = list(rec.get("points", []))
+        self.pure = _LS_PURE + list(rec.get("pure", []))
+        self.nq = self.nctl = 0
+        self.tasks = []            # rows of every spawned block, with the dispositions relative to that task
+        self.select = None         # [(Name, refutable)]
+        self.select_else = "absent"
+
+    def fail(self, msg):
+        raise AnchorMissing("%s: %s" % (self.what, msg))
+
+    def name(self, base, sfx):
+        nm = base + sfx
+        if nm not in _LS_POINTS:
+            self.fail("no point is called %s (role %s in a context with suffix %r)" % (nm, base, sfx))
+        return nm
+
+    def point(self, expr, sfx):
+        hits = sorted(set(b for (rx, b) in self.points if re.fullmatch(rx, expr)))
+        if len(hits) > 1:
+            self.fail("expression matches several point recognisers %r: %r" % (hits, expr))
+        return (hits[0], self.name(hits[0], sfx)) if hits else None
+
+    # ---- blocks ----
+    def block(self, text, sfx):
+        rows, term = [], None
+        for st in _stmts(text, self.what):
+            if term:
+                self.fail("statement after a control transfer: %r" % st[:100])
+            r, term = self.stmt(st, sfx)
+            rows += r
+        return rows, term
+
+    def fail_arm(self, expr, sfx):
+        rows, term = self.block(_block_inner(expr), sfx)
+        if rows:
+            self.fail("a failure arm contains fallible points itself: %r" % (rows,))
+        return _LS_FAIL_DISP[term]
+
+    def quiet(self, text, sfx, where):
+        """a block that may skip the iteration but must not leave the loop by itself"""
+        rows, term = self.block(text, sfx)
+        if term not in (None, "continue"):
+            self.fail("%s leaves the loop (%s) without a recognised fallible point" % (where, term))
+        return rows
+
+    # ---- statements ----
+    def stmt(self, st, sfx):
+        for (rx, kind) in _LS_TERMINALS:
+            if re.fullmatch(rx, st):
+                if kind in ("continue", "break") or st.startswith("return"):
+                    self.nctl += 1
+                return [], kind
+        if any(re.fullmatch(rx, st) for rx in self.pure):
+            return [], None
+        if re.match(r"(?:let \w+ = )?tokio::spawn\(", st):
+            return self.stmt_spawn(st, sfx)
+        if st.startswith("tokio::select! {"):
+            return self.stmt_select(st, sfx)
+        if re.match(r"(?:let [^=]+ = |[\w\.]+ = )?match ", st):
+            return self.stmt_match(st, sfx)
+        if st.startswith("if "):
+            return self.stmt_if(st, sfx)
+        if re.match(r"(?:loop|while)\b", st):
+            if not self.rec.get("loops"):
+                self.fail("a nested loop on the loop's own task: %r" % st[:100])
+            head, body, rest = _ls_braced(st, 0, self.what)
+            if rest not in ("", ";"):
+                self.fail("text after a nested loop: %r" % rest[:60])
+            rows = self.header(head, sfx)
+            r, _t = self.block(body, sfx)
+            return rows + r, None
+        r = self.stmt_expr(st, sfx)
+        if r is not None:
+            return r, None
+        self.fail("unrecognised statement %r" % st[:160])
+
+    def header(self, head, sfx):
+        if head == "loop":
+            return []
+        m = re.fullmatch(r"while let (?:Ok|Some)\(.*\) = (.+)", head)
+        p = self.point(m.group(1), sfx) if m else None
+        if not p:
+            self.fail("unrecognised loop header %r" % head[:120])
+        return [(p[1], "Propagate ByLoopCond")]
+
+    def stmt_expr(self, st, sfx):
+        core = re.sub(r"[;,]$", "", st).strip()
+        core = re.sub(r"^(?:let [^=]+ = |[\w\.]+ = )", "", core)
+        for (srx, disp) in _LS_SUFFIXES:
+            mm = re.fullmatch(r"(.+?)(?:%s)" % srx, core)
+            p = self.point(mm.group(1), sfx) if mm else None
+            if p:
+                if disp == "Propagate ByQuestion":
+                    self.nq += 1
+                return [(p[1], disp)]
+        return None
+
+    def stmt_spawn(self, st, sfx):
+        m = re.fullmatch(r"(?:let \w+ = )?tokio::spawn\((.*)\);?", st)
+        if not m:
+            self.fail("unrecognised spawn statement %r" % st[:120])
+        inner = m.group(1).strip()
+        ma = re.match(r"async (?:move )?\{", inner)
+        if ma:
+            k = ma.end() - 1
+            if _close_of(inner, k, self.what) != len(inner) - 1:
+                self.fail("the async block is not the whole argument of tokio::spawn")
+            sub = _LoopWalk(self.what + " (spawned block)", self.rec.get("task", {}))
+            rows, _t = sub.block(inner[k + 1:-1].strip(), "")
+            self.nq += sub.nq
+            self.nctl += sub.nctl
+            self.tasks.append(rows)
+            self.tasks += sub.tasks
+            return [(nm, "InTask") for (nm, _d) in rows], None
+        # tokio::spawn(f(args)): the ARGUMENTS are evaluated here, on the loop's own task
+        rows = []
+        for (rx, base) in self.points:
+            while True:
+                mm = re.search(r"(?:%s)\?" % rx, inner)
+                if not mm:
+                    break
+                rows.append((self.name(base, sfx), "Propagate ByQuestion"))
+                self.nq += 1
+                inner = inner[:mm.start()] + "<" + base + ">" + inner[mm.end():]
+        hits = [nm for (rx, nm) in self.rec.get("calls", []) if re.fullmatch(rx, inner)]
+        if len(hits) != 1:
+            self.fail("unrecognised spawned call %r" % inner[:120])
+        self.tasks.append([(self.name(hits[0], ""), "Handled Converted")])
+        return rows + [(self.name(hits[0], ""), "InTask")], None
+
+    def stmt_match(self, st, sfx):
+        m = re.match(r"(?:let [^=]+ = |[\w\.]+ = )?match ", st)
+        scrut, body, rest = _ls_braced(st, m.end(), self.what)
+        if rest not in ("", ";", ","):
+            self.fail("text after a match: %r" % rest[:60])
+        arms = _arms(body, self.what)
+        p = self.point(scrut, sfx)
+        if p:
+            bad = [(pat, ex) for (pat, ex) in arms if re.fullmatch(r"Err\(.*\)|None|_", pat)]
+            good = [(pat, ex) for (pat, ex) in arms if re.fullmatch(r"(?:Ok|Some)\(.*\)", pat)]
+            if len(bad) != 1 or len(bad) + len(good) != len(arms):
+                self.fail("arms of `match %s` are not (Ok|Some)(..)* and one Err(..)|None: %r" % (scrut, [a for a, _ in arms]))
+            rows = [(p[1], self.fail_arm(bad[0][1], sfx))]
+            s2 = sfx + self.rec.get("arm_suffix", {}).get(p[0], "")
+            for (pat, ex) in good:
+                rows += self.quiet(_block_inner(ex), s2, "a success arm of `match %s`" % scrut)
+            return rows, None
+        for (rx, pats) in self.rec.get("plain_match", []):
+            if re.fullmatch(rx, scrut):
+                rows = []
+                for (pat, ex) in arms:
+                    s = [s_ for (prx, s_) in pats if re.fullmatch(prx, pat)]
+                    if len(s) != 1:
+                        self.fail("unrecognised arm pattern %r of `match %s`" % (pat, scrut))
+                    rows += self.quiet(_block_inner(ex), sfx + s[0], "an arm of `match %s`" % scrut)
+                return rows, None
+        self.fail("unrecognised match scrutinee %r" % scrut[:120])
+
+    def stmt_if(self, st, sfx):
+        cond, then_b, rest = _ls_braced(st, 3, self.what)
+        rest = rest.rstrip(";").strip()
+        if rest == "":
+            else_b = None
+        elif rest.startswith("else"):
+            r = rest[4:].strip()
+            if r.startswith("{") and _close_of(r, 0, self.what) == len(r) - 1:
+                else_b = r[1:-1].strip()
+            elif r.startswith("if "):
+                else_b = r
+            else:
+                self.fail("text after an if block: %r" % rest[:60])
+        else:
+            self.fail("text after an if block: %r" % rest[:60])
+        go = lambda b, s, w: self.quiet(b, s, w) if b is not None else []
+        m = re.fullmatch(r"let Err\(\w+\) = (.+)", cond)
+        p = self.point(m.group(1), sfx) if m else None
+        if p:
+            return [(p[1], self.fail_arm(then_b, sfx))] + go(else_b, sfx, "the else of `if %s`" % cond), None
+        m = re.fullmatch(r"let (?:Ok|Some)\(.*\) = (.+)", cond)
+        p = self.point(m.group(1), sfx) if m else None
+        if p:
+            disp = self.fail_arm(else_b, sfx) if else_b is not None else "Handled Converted"
+            s2 = sfx + self.rec.get("arm_suffix", {}).get(p[0], "")
+            return [(p[1], disp)] + go(then_b, s2, "the success block of `if %s`" % cond), None
+        m = re.fullmatch(r"(.+)\.is_ok\(\)", cond)
+        p = self.point(m.group(1), sfx) if m else None
+        if p:
+            return [(p[1], "Handled Converted")] + go(then_b, sfx, "if") + go(else_b, sfx, "else"), None
+        m = re.fullmatch(r"(.+)\.is_err\(\)", cond)
+        p = self.point(m.group(1), sfx) if m else None
+        if p:
+            return [(p[1], self.fail_arm(then_b, sfx))] + go(else_b, sfx, "else"), None
+        for (rx, base) in self.rec.get("check_if", []):
+            if re.fullmatch(rx, cond):
+                return [(self.name(base, sfx), self.fail_arm(then_b, sfx))] + go(else_b, sfx, "else"), None
+        for (rx, s_then, s_else) in self.rec.get("plain_if", []):
+            if re.fullmatch(rx, cond):
+                return go(then_b, sfx + s_then, "the then-block of `if %s`" % cond) + go(else_b, sfx + s_else, "the else-block of `if %s`" % cond), None
+        self.fail("unrecognised condition %r" % cond[:120])
+
+    def stmt_select(self, st, sfx):
+        if self.select is not None:
+            self.fail("more than one tokio::select!")
+        _h, body, rest = _ls_braced(st, 0, self.what)
+        if rest not in ("", ";"):
+            self.fail("text after tokio::select!: %r" % rest[:60])
+        rows, sel = [], []
+        for (head, expr) in _arms(body, self.what):
+            if head == "else":
+                r, term = self.block(_block_inner(expr), sfx)
+                if r or term not in ("break", "return", "panic"):
+                    self.fail("unrecognised `else` branch of tokio::select!: %r" % expr[:80])
+                self.select_else = {"break": "Some ByBreak", "return": "Some ByReturn", "panic": "Some ByPanic"}[term]
+                continue
+            k = _first_open(head, 0, "=", self.what)
+            pat, fut = head[:k].strip(), head[k + 1:].strip()
+            nm = [n_ for (rx, n_) in self.rec.get("select", []) if re.fullmatch(rx, fut)]
+            if len(nm) != 1:
+                self.fail("unrecognised tokio::select! future %r" % fut[:100])
+            nm = nm[0]
+            alias = None
+            if re.fullmatch(r"_|[a-z_]\w*", pat):
+                refutable = False
+                if pat != "_":
+                    alias = pat
+                    self.points.append((re.escape(pat), nm))
+            elif re.fullmatch(r"(?:Some|Ok)\(.*\)", pat):
+                refutable = True
+                rows.append((self.name(nm, sfx), "Parked"))
+            else:
+                self.fail("unrecognised tokio::select! pattern %r" % pat[:80])
+            sel.append((self.name(nm, sfx), refutable))
+            r = self.quiet(_block_inner(expr), sfx, "the tokio::select! branch of %s" % fut)
+            if alias is not None:
+                if not any(n_ == self.name(nm, sfx) for (n_, _d) in r):
+                    self.fail("the value `%s` of the tokio::select! branch %s is never examined" % (alias, fut))
+                self.points = [(rx, n_) for (rx, n_) in self.points if rx != re.escape(alias)]
+            rows += r
+        if self.select_else == "absent":
+            self.select_else = "None"
+        self.select = sel
+        return rows, None
+
+    # ---- entry ----
+    def loop(self, head, body):
+        rows = self.header(head, "")
+        r, _t = self.block(body, "")
+        flat = _ls_no_literals(head + " { " + body + " }")
+        nq, nctl = flat.count("?"), len(re.findall(r"\b(?:break|continue|return)\b", flat))
+        if nq != self.nq or nctl != self.nctl:
+            self.fail("the text has %d `?` and %d break/continue/return, the recognisers account for %d and %d" % (nq, nctl, self.nq, self.nctl))
+        return rows + r
+
+
+def gen_loop_shapes():
+    L, facts = [], {}
+
+    def emit_rows(name, rows, origin):
+        facts[name] = rows
+        L.append("Definition %s : list (point * disposition) :=  (* %s *)\n  [ %s ]." % (
+            name, origin, ";\n    ".join("(P%s, %s)" % (p, d) for (p, d) in rows)))
+
+    def emit_select(name, w, origin):
+        facts[name + "_select"] = w.select
+        facts[name + "_select_else"] = w.select_else
+        L.append("Definition %s_select : list (point * bool) := [%s].  (* %s tokio::select! branches: (source, the pattern is refutable) *)" % (
+            name, "; ".join("(P%s, %s)" % (p, "true" if r else "false") for (p, r) in (w.select or [])), origin))
+        L.append("Definition %s_select_else : option exit_kind := %s.  (* %s `else =>` branch (None: there is none, tokio::select! panics when every branch is disabled) *)" % (
+            name, "None" if w.select is None else w.select_else, origin))
+
+    def emit_bool(name, v, origin):
+        facts[name] = v
+        L.append("Definition %s : bool := %s.  (* %s *)" % (name, "true" if v else "false", origin))
+
+    def walk(what, rec, head, body):
+        w = _LoopWalk(what, rec)
+        return w, w.loop(head, body)
+
+    # ---------------- server: octo-squirrel-server/src/server.rs ----------------
+    f = "octo-squirrel-server/src/server.rs"
+    s = src(f)
+    tcp_task = {"points": [(r"tls_acceptor\.accept\(\w+\)\.await", "TlsHandshake"),
+                           (r"template::tcp::accept_websocket_then_replay\(\w+, \w+\)\.await", "WsThenRelay"),
+                           (r"template::tcp::relay\(\w+, \w+\)\.await", "Relay")],
+                "plain_if": [(r"use_ws|ws_config\.is_some\(\)", "", "")]}
+    tcp_rec = {"points": [(r"listener\.accept\(\)\.await", "Accept"), (r"new_codec\(context\.as_ref\(\)\)", "NewCodec")] + tcp_task["points"],
+               "calls": [(r"template::tcp::accept_websocket_then_replay\(\w+, (?:\w+|<NewCodec>)\)", "WsThenRelay"),
+                         (r"template::tcp::relay\(\w+, (?:\w+|<NewCodec>)\)", "Relay")],
+               "plain_if": tcp_task["plain_if"], "task": tcp_task}
+    _, body = _item(s, r"\nasync fn startup_tcp<", f + ": startup_tcp")
+    body = _ls_norm(body)
+    st = _ls_stmt_with(body, r"match \(&config\.ssl, &config\.ws\) \{", f + ": startup_tcp")
+    _h, mbody, _r = _ls_braced(st, 0, f + ": startup_tcp")
+    arms = _arms(mbody, f + ": startup_tcp")
+    if len(arms) != 2 or not re.fullmatch(r"\(None, \w+\)", arms[0][0]) or not re.fullmatch(r"\(Some\(\w+\), \w+\)", arms[1][0]):
+        raise AnchorMissing(f + ": startup_tcp must have exactly the arms (None, ws) and (Some(ssl_config), ws); found %r" % [a for a, _ in arms])
+    for nm, (_pat, expr), tag in [("server_tcp_plain", arms[0], "(None, ws)"), ("server_tcp_tls", arms[1], "(Some(ssl), ws)")]:
+        head, lbody = _ls_single_loop(_block_inner(expr), f + ": startup_tcp %s arm" % tag)
+        w, rows = walk(f + ": startup_tcp %s arm" % tag, tcp_rec, head, lbody)
+        emit_rows(nm + "_points", rows, f + " startup_tcp %s arm: the accept loop" % tag)
+        emit_rows(nm + "_task_points", [r_ for t_ in w.tasks for r_ in t_], f + " startup_tcp %s arm: inside the spawned task(s), relative to the task" % tag)
+
+    quic_task = {"points": [(r"incoming\.await", "QuicHandshake"), (r"\w+\.accept_bi\(\)\.await", "QuicAcceptBi"),
+                            (r"template::quic::relay\(QuicStream::new\(\w+, \w+\), \w+\)\.await", "QuicRelay")],
+                 "pure": [r"Ok::<\(\), anyhow::Error>\(\(\)\)"]}
+    quic_rec = {"points": [(r"endpoint\.accept\(\)\.await", "EndpointAccept"), (r"new_codec\(context\.as_ref\(\)\)", "NewCodec")] + quic_task["points"],
+                "task": quic_task}
+    _, body = _item(s, r"\nasync fn startup_quic<", f + ": startup_quic")
+    st = _ls_stmt_with(_ls_norm(body), r"if let Some\(\w+\) = &config\.quic \{", f + ": startup_quic")
+    _c, then_b, _r = _ls_braced(st, 3, f + ": startup_quic")
+    head, lbody = _ls_single_loop(then_b, f + ": startup_quic")
+    w, rows = walk(f + ": startup_quic", quic_rec, head, lbody)
+    emit_rows("server_quic_points", rows, f + " startup_quic: the accept loop")
+    emit_rows("server_quic_task_points", [r_ for t_ in w.tasks for r_ in t_], f + " startup_quic: inside the spawned task, relative to the task")
+
+    # ---------------- server: octo-squirrel-server/src/server/shadowsocks.rs ----------------
+    f = "octo-squirrel-server/src/server/shadowsocks.rs"
+    s = src(f)
+    udp_rec = {
+        "select": [(r"cleanup_timer\.tick\(\)", "Tick"), (r"rx\.recv\(\)", "RecvChannel"), (r"inbound\.recv_from\(&mut buf\)", "RecvClient")],
+        "points": [(r"SessionCodec::encode\(&codec, .*, &mut \w+\)", "EncodeReply"), (r"inbound\.send_to\(&\w+, \w+\)\.await", "SendReply"),
+                   (r"SessionCodec::<N>::decode\(&codec, &mut \w+\)", "DecodeClient"), (r"\w+\.try_send\(.*\)\.await", "AssocSend"),
+                   (r"UdpAssociateContext::create\(.*\)\.await", "AssocCreate")],
+        "arm_suffix": {"AssocCreate": "New"},
+        "plain_match": [(r"net_map\.get_mut\(&\w+\)", [(r"Some\(\w+\)", ""), (r"None", "")])],
+        "plain_if": [(r"let Some\(\w+\) = undelivered", "", "")],
+        "pure": [r"net_map\.(?:iter|get|remove|insert)\(.*\);", r"let mut \w+ = BytesMut::new\(\);", r"let mut \w+ = BytesMut::from\(&buf\[\.\.len\]\);",
+                 r"let \w+ = associate_key\(.*\);", r"let \w+ = \(\w+, \w+, \w+\);"]}
+    _, body = _item(s, r"\nasync fn startup_udp<", f + ": startup_udp")
+    st = _ls_stmt_with(_ls_norm(body), r"if config\.mode\.enable_udp\(\) \{", f + ": startup_udp")
+    _c, then_b, _r = _ls_braced(st, 3, f + ": startup_udp")
+    head, lbody = _ls_single_loop(then_b, f + ": startup_udp")
+    w, rows = walk(f + ": startup_udp", udp_rec, head, lbody)
+    emit_rows("server_udp_points", rows, f + " startup_udp: the datagram loop")
+    emit_select("server_udp", w, f + " startup_udp")
+
+    _, impl_body = _item(s, r"\nimpl<const N: usize> UdpAssociateContext<N> \{", f + ": impl UdpAssociateContext")
+    _, cbody = _item(impl_body, r"async fn create\(", f + ": UdpAssociateContext::create")
+    spawned = bool(re.search(r"let task = tokio::spawn\(async move \{ \w+\.relay\(\w+\)\.await;? \}\);", _ls_norm(cbody)))
+    emit_bool("server_assoc_relay_spawned", spawned, f + " UdpAssociateContext::create: `let task = tokio::spawn(async move { assoc.relay(receiver).await });`")
+    assoc_rec = {
+        "select": [(r"self\.outbound\.recv_from\(&mut buf\)", "PeerRecv"), (r"receiver\.recv\(\)", "ClientChannelRecv")],
+        "points": [(r"self\.server_packet_id\.checked_add\(1\)", "PacketIdNext"), (r"self\.inbound\.send\(.*\)\.await", "ReplyChannelSend"),
+                   (r"\w+\.to_socket_addr\(\)", "Resolve"), (r"self\.outbound\.send_to\(&\w+, \w+\)\.await", "SendPeer")],
+        "check_if": [(r"!self\.validate_packet_id\(session\.packet_id\)", "ReplayCheck")],
+        "pure": [r"let \w+ = BytesMut::from\(&buf\[\.\.len\]\);", r"let \w+ = Session::new\(.*\);"]}
+    _, body = _item(impl_body, r"async fn relay\(", f + ": UdpAssociateContext::relay")
+    head, lbody = _ls_single_loop(_ls_norm(body), f + ": UdpAssociateContext::relay")
+    w, rows = walk(f + ": UdpAssociateContext::relay", assoc_rec, head, lbody)
+    emit_rows("server_assoc_points", rows, f + " UdpAssociateContext::relay: the loop of one association's task (dispositions relative to THAT loop)")
+    emit_select("server_assoc", w, f + " UdpAssociateContext::relay")
+
+    # ---------------- client: octo-squirrel-client/src/client/template.rs ----------------
+    f = "octo-squirrel-client/src/client/template.rs"
+    s = src(f)
+    ctcp_rec = {"points": [(r"listener\.accept\(\)\.await", "Accept")],
+                "task": {"points": [(r"handshake", "LocalHandshake"), (r"try_transfer_tcp\(.*\)\.await", "TryTransfer")],
+                         "pure": [r"let handshake = handshake::get_request_addr\(&mut \w+\)\.await;"]}}
+    _, body = _item(s, r"\npub async fn transfer_tcp<", f + ": transfer_tcp")
+    st = _ls_stmt_with(_ls_norm(body), r"match context \{", f + ": transfer_tcp")
+    _h, mbody, _r = _ls_braced(st, 0, f + ": transfer_tcp")
+    ok_arm = [ex for (pat, ex) in _arms(mbody, f + ": transfer_tcp") if re.fullmatch(r"Ok\(\w+\)", pat)]
+    if len(ok_arm) != 1:
+        raise AnchorMissing(f + ": transfer_tcp: `match context { Ok(context) => { loop .. } .. }`")
+    head, lbody = _ls_single_loop(_block_inner(ok_arm[0]), f + ": transfer_tcp")
+    w, rows = walk(f + ": transfer_tcp", ctcp_rec, head, lbody)
+    emit_rows("client_tcp_points", rows, f + " transfer_tcp: the accept loop")
+    emit_rows("client_tcp_task_points", [r_ for t_ in w.tasks for r_ in t_], f + " transfer_tcp: inside the spawned task, relative to the task")
+
+    reply_task = {"points": [(r"server_client\.next\(\)\.await", "ServerRecv"), (r"next", "ServerDecode"), (r"client_local\.send\(.*\)\.await", "LocalChannelSend")],
+                  "loops": True}
+    cudp_rec = {
+        "select": [(r"cleanup_timer\.tick\(\)", "Tick"), (r"client_local_rx\.recv\(\)", "RecvReplyChannel"), (r"local_client\.next\(\)", "RecvLocal")],
+        "points": [(r"client_local\.send\(\w+\)\.await", "SendLocalReply"), (r"new_out\(&\w+, &\w+\)\.await", "NewOut"),
+                   (r"new_binding\(.*\)\.await", "NewBinding"), (r"\w+\.sink\.send\(.*\)\.await", "SendOutbound")],
+        "plain_match": [(r"client_server_cache\.entry\(\w+\)", [(r"Entry::Vacant\(\w+\)", "Vacant"), (r"Entry::Occupied\(\w+\)", "")])],
+        "plain_if": [(r"\w+\.relay_task\.is_finished\(\)", "Retry", "")],
+        "pure": [r"client_server_cache\.(?:iter|get)\(.*\);", r"let \w+ = new_key\(\w+, &\w+\);", r"let \w+ = \w+\.into_mut\(\);",
+                 r"\w+\.insert\(Binding ?\{ ?sink, relay_task ?\}\);", r"\w+\.sink = \w+;", r"\w+\.relay_task = \w+;"]}
+    _, body = _item(s, r"\npub async fn transfer_udp<", f + ": transfer_udp")
+    head, lbody = _ls_single_loop(_ls_norm(body), f + ": transfer_udp")
+    w, rows = walk(f + ": transfer_udp", cudp_rec, head, lbody)
+    emit_rows("client_udp_points", rows, f + " transfer_udp: the datagram loop")
+    emit_select("client_udp", w, f + " transfer_udp")
+
+    bind_rec = {"points": [(r"client_server\.send\(.*\)\.await", "FirstSend")], "task": reply_task,
+                "pure": [r"let \(\(\w+, \w+\), \w+\) = msg;", r"let \(mut client_server, mut server_client\) = out\.split\(\);", r"Ok\(\(client_server, relay_task\)\)"]}
+    _, body = _item(s, r"\nasync fn new_binding<", f + ": new_binding")
+    w = _LoopWalk(f + ": new_binding", bind_rec)
+    rows, _t = w.block(_ls_norm(body), "")
+    flat = _ls_no_literals(_ls_norm(body))
+    if flat.count("?") != w.nq or len(re.findall(r"\b(?:break|continue|return)\b", flat)) != w.nctl:
+        w.fail("exits the recognisers do not account for")
+    if len(w.tasks) != 1:
+        w.fail("expected exactly one spawned block (the reply task)")
+    emit_rows("client_binding_points", rows, f + " new_binding (helper called on the datagram loop's task; Propagate = out of the helper, to its call site)")
+    emit_rows("client_reply_task_points", w.tasks[0], f + " new_binding: the spawned reply task (dispositions relative to ITS loop)")
+
+    header = ("(* GENERATED by tools/gen_from_source.py from /repo's working tree -- do not edit.\n"
+              "   Loop shapes: every fallible point of the long-lived service loops, in source order, with what the code\n"
+              "   around it does when it fails.  The vocabulary below is fixed text of the translator; the tables are extracted. *)\n"
+              "From Coq Require Import List.\nImport ListNotations.\n\n" + _LS_VOCAB + "\n")
+    return header + "\n".join(L) + "\n", facts
+
 def write_if_changed(path, content):
     try:
         if open(path, encoding="utf-8").read() == content:
@@ -1079,7 +1592,7 @@ def main():
     facts = {}
     errors = []
     for name, fn in [("Params", gen_params), ("Tables", gen_tables), ("Shared", gen_shared), ("ConfigTables", gen_config),
-                     ("ExitPaths", gen_exit_paths)]:
+                     ("ExitPaths", gen_exit_paths), ("LoopShapes", gen_loop_shapes)]:
         try:
             text, fc = fn()
             facts.update(fc)
